@@ -240,3 +240,180 @@ class C02(ReduceProp):
 
     def gen(self, rng, tier, i):
         return make_case(rng, chunked=True, nmax=10 if tier == "quick" else 24, mcs=(None, None, 1, 2))
+
+
+class C03(ReduceProp):
+    id = "C03"
+    lean_module = "FloxProps.C03"
+    rule = ("chunked cases with 2-12 blocks; every case is executed under a split_every drawn from 2..#blocks (all tree depths), "
+            "on the synchronous scheduler, the threaded scheduler and the harness's executor that runs the real task graph in a "
+            "seeded random topological order; each result is compared with the Lean model (given that split_every), the NumPy "
+            "oracle, and bitwise with a reference run (sync, split_every=4); distinct = hash of the case")
+    quick_n = 500
+    thorough_n = 6000
+
+    def gen(self, rng, tier, i):
+        for _ in range(100):
+            c = make_case(rng, chunked=True, nmax=12 if tier == "quick" else 20, mcs=(None, None, 1),
+                          methods=(None, "map-reduce", "map-reduce", "cohorts", "cohorts"))
+            if c.chunks is not None and len(c.chunks) >= 2:
+                break
+        nb = len(c.chunks)
+        c.split_every = rng.randint(2, max(2, nb))
+        c.scheduler = rng.choice(["sync", "threads", f"random:{rng.randrange(10**6)}", f"random:{rng.randrange(10**6)}"])
+        return c
+
+    def extra_checks(self, c, impl, rep):
+        import copy
+        import numpy as np
+
+        if impl["kind"] != "ok":
+            return None
+        ref = copy.copy(c)
+        ref.split_every = 4
+        ref.scheduler = "sync"
+        r = run_impl(ref)
+        rep.dist["sched:" + c.scheduler.split(":")[0]] += 1
+        rep.dist["tree_depth:" + str(_depth(len(c.chunks), c.split_every))] += 1
+        if r["kind"] != "ok":
+            return f"reference run (sync, split_every=4) failed: {r}"
+        a, b = np.asarray(impl["vals"]), np.asarray(r["vals"])
+        if a.shape != b.shape:
+            return f"shape differs from reference run: {a.shape} vs {b.shape}"
+        if c.func in ("var", "nanvar", "std", "nanstd", "mean", "nanmean"):
+            ok = np.allclose(a, b, rtol=1e-9, atol=1e-9, equal_nan=True)
+        else:
+            ok = np.array_equal(a, b, equal_nan=True) if a.dtype.kind == "f" else np.array_equal(a, b)
+        if not ok:
+            return f"value depends on split_every/scheduler: {a.tolist()} (se={c.split_every},{c.scheduler}) vs {b.tolist()} (se=4,sync)"
+        return None
+
+
+def _depth(n, k):
+    d, p = 0, 1
+    while p < n:
+        p *= k
+        d += 1
+    return max(d, 1)
+
+
+class C05(ReduceProp):
+    id = "C05"
+    lean_module = "FloxProps.C05"
+    rule = ("expected_groups that are supersets / subsets / disjoint / unsorted w.r.t. the labels present; fill_value in "
+            "{NaN, 0, False, -7, 10**6}; min_count in {None, 0, 1, 2, 20}; all reductions, engines, eager and every chunked plan; "
+            "the check demands exactly one slot per requested label, in the requested (or ascending) order, the fill verbatim in "
+            "absent / under-populated slots and NumPy's value elsewhere; distinct = hash of the case")
+    quick_n = 1200
+    thorough_n = 15000
+
+    def gen(self, rng, tier, i):
+        return make_case(rng, nmax=10 if tier == "quick" else 20, fills=(NAN, 0, False, -7, 10**6),
+                         mcs=(None, None, 0, 1, 2, 20), expected_modes=["superset", "subset", "disjoint", "unsorted", "exact"],
+                         missing=(0, 0.2, 0.3))
+
+
+class C06(ReduceProp):
+    id = "C06"
+    lean_module = "FloxProps.C06"
+    rule = ("arg-reductions and first/last family on data with few distinct values (ties) and NaNs, so that the extreme / first "
+            "valid member occurs on both sides of chunk boundaries; chunkings: single chunk, all size-1 chunks, random; methods "
+            "None / map-reduce / cohorts; split_every 2-4 (tree depth up to 4); oracle = first occurrence of the extreme over the "
+            "whole array / first (last) member in positional order")
+    quick_n = 1200
+    thorough_n = 15000
+
+    def gen(self, rng, tier, i):
+        for _ in range(100):
+            c = make_case(rng, funcs=sorted(ARG | FIRSTLAST), nmax=12 if tier == "quick" else 24,
+                          dtypes=["float64", "float64", "int64", "float32"], streams=["nan", "finite", "mixed"],
+                          methods=(None, "map-reduce", "cohorts", "blockwise"), mcs=(None, None, 1))
+            # few distinct values -> ties across blocks
+            if c.dtype.startswith("float"):
+                c.vals = [v if (isinstance(v, float) and v != v) else float(rng.choice([-1, 2, 2, 2])) for v in c.vals]
+            else:
+                c.vals = [rng.choice([-1, 2, 2, 2]) for _ in c.vals]
+            if c.chunks is not None:
+                c.chunks = gen_chunks(rng, len(c.vals), rng.choice(["ones", "single", "random", "random"]))
+            if legal(c):
+                return c
+        return c
+
+
+class C16(ReduceProp):
+    id = "C16"
+    lean_module = "FloxProps.C16"
+    rule = ("sort in {True, False}; expected_groups sorted / unsorted / absent; float labels with NaN; every plan and chunking; "
+            "checks: sort=True -> returned labels strictly ascending, no duplicates; sort=False -> the order given in "
+            "expected_groups, or order of first appearance for in-memory input; in all cases the label->value mapping equals the "
+            "NumPy oracle's and no present/requested label is lost or repeated")
+    quick_n = 1200
+    thorough_n = 15000
+
+    def gen(self, rng, tier, i):
+        return make_case(rng, nmax=10 if tier == "quick" else 20, sorts=(True, False, False),
+                         expected_modes=["none", "none", "unsorted", "unsorted", "superset", "exact"], missing=(0, 0.2),
+                         mcs=(None, None, 1))
+
+    def extra_checks(self, c, impl, rep):
+        import numpy as np
+
+        if impl["kind"] != "ok":
+            return None
+        g = [float(x) for x in np.asarray(impl["groups"]).reshape(-1)]
+        if c.sort:
+            rep.dist["order:sorted"] += 1
+            return None
+        if c.expected is not None:
+            rep.dist["order:expected"] += 1
+            if g != [float(x) for x in c.expected]:
+                return f"sort=False: labels {g} do not follow expected_groups {c.expected}"
+        elif c.chunks is None:
+            rep.dist["order:first-appearance"] += 1
+            seen = []
+            for l in c.labels:
+                if l is not None and float(l) not in seen:
+                    seen.append(float(l))
+            if g != seen:
+                return f"sort=False, in-memory: labels {g} are not in order of first appearance {seen}"
+        return None
+
+
+class C20(ReduceProp):
+    id = "C20"
+    lean_module = "FloxProps.C20"
+    rule = ("three streams: (a) min/max/nanmin/nanmax on float data mixing finite values, NaN and +-inf on every engine and plan; "
+            "(b) sum/nansum/prod/nanprod/count/mean on int8/uint8/int16 data whose group totals exceed the input width but not "
+            "int64; (c) var/std/nanvar/nanstd on well-conditioned data (multiples of 1/8, |x| <= 100), compared with NumPy and "
+            "between eager and chunked evaluation (rel. 1e-9); distinct = hash of the case")
+    quick_n = 1200
+    thorough_n = 15000
+
+    def gen(self, rng, tier, i):
+        stream = i % 3
+        for _ in range(100):
+            if stream == 0:
+                c = make_case(rng, funcs=["min", "max", "nanmin", "nanmax"], dtypes=["float64", "float32"],
+                              streams=["inf", "mixed"], nmax=12, mcs=(None,))
+            elif stream == 1:
+                c = make_case(rng, funcs=["sum", "nansum", "prod", "nanprod", "mean", "nanmean", "count"],
+                              dtypes=["int8", "uint8", "int16"], nmax=40, mcs=(None,), fills=(None, None, 0, -7))
+                if "prod" in c.func:
+                    c.vals = [rng.choice([1, 1, 1, 2, 3, 5, 7] + ([] if c.dtype == "uint8" else [-1, -3])) for _ in c.vals]
+                else:
+                    hi = {"int8": 120, "uint8": 250, "int16": 30000}[c.dtype]
+                    c.vals = [rng.choice([hi, hi - 1, hi // 2, 1] + ([] if c.dtype == "uint8" else [-hi])) for _ in c.vals]
+                c.labels = [l if l is None else [0, 1][int(l) % 2] for l in c.labels]
+                if c.expected is not None:
+                    c.expected = [0, 1]
+                    if c.fill is None:
+                        c.fill = 0
+                if c.chunks is not None:
+                    c.chunks = gen_chunks(rng, len(c.vals))
+            else:
+                c = make_case(rng, funcs=["var", "std", "nanvar", "nanstd"], dtypes=["float64"], streams=["finite", "nan"],
+                              nmax=30, mcs=(None,))
+                c.vals = [v if v != v else rng.randint(-800, 800) / 8.0 for v in c.vals]
+            if legal(c):
+                return c
+        return c
